@@ -47,6 +47,7 @@ type Engine struct {
 	seed           int
 	timeout        int
 	loadSecs       float64
+	skipUnclaimed  bool
 	srcHashes      map[string]string
 }
 
@@ -718,6 +719,10 @@ func (eng *Engine) discharge(obls []*Obligation) {
 	var wg sync.WaitGroup
 	sem := make(chan struct{}, 12)
 	for _, o := range obls {
+		if !o.Claimed && eng.skipUnclaimed {
+			o.Res = SolverResult{Status: "skipped", Solver: "-"}
+			continue
+		}
 		if o.Goal == "true" && o.Kind != "vacuity" {
 			o.Trivial = true
 			o.Res = SolverResult{Status: "unsat", Solver: "syntactic"}
